@@ -5,8 +5,10 @@ EXTENDS Search, TLC, Json
 CONSTANTS MaxVal, MaxLen, MaxQ
 VARIABLES xs, qs            \* integer array; doubled (half-integer) queries; <<>> = not chosen yet
 
-IncInt(n)  == {s \in [1..n -> 0..MaxVal] : \A i \in 1..(n - 1) : s[i] < s[i + 1]}
-HalfVals   == (-2)..(2 * MaxVal + 2)
+\* element lattice -2 .. MaxVal-2 (negative elements and a zero at an interior position included)
+Lo == 0 - 2
+IncInt(n)  == {s \in [1..n -> Lo..(MaxVal + Lo)] : \A i \in 1..(n - 1) : s[i] < s[i + 1]}
+HalfVals   == (2 * Lo - 2)..(2 * (MaxVal + Lo) + 2)
 SortedQ(n) == {s \in [1..n -> HalfVals] : \A i \in 1..(n - 1) : s[i] <= s[i + 1]}
 
 Init == xs \in UNION {IncInt(n) : n \in 1..MaxLen} /\ qs = <<>>
